@@ -152,6 +152,26 @@ class CallMixin:
                 loc["self"] = V(TRef(owner), ref_t)
                 env = Env(loc, None)
                 return self.apply_contract(c, env, key, None, node, ret_ty=self.types.parse_str(c.returns) if c.returns else TNone)
+        # C17: a callable PARAMETER of the function under verification (e.g. `func` of tls.pull_list): described by the
+        # trusted `callback=True` contract registered under "<function>.<parameter>" (clause names: the parameters of
+        # the function under verification with their ENTRY values - heap reads see the current heap -, a0, a1, ... = the
+        # arguments of this call).  Same semantics as a callback stored in a field: only its `modifies` are havocked, it
+        # may raise what `raises` declares.
+        tenv = getattr(self, "top_env", None)
+        if tenv is not None and tenv.old is not None and isinstance(callee, V):
+            for pname, pv in tenv.old.locals.items():
+                if isinstance(pv, V) and pv.ty == TFunc and pv.t.eq(callee.t):
+                    key = "%s.%s" % (self.callee_stack[0].split("#")[0] if self.callee_stack else "?", pname)
+                    c = self.registry.contracts.get(key)
+                    if c is not None and c.callback and c.trusted:
+                        if any(isinstance(a, StarArg) for a in args):
+                            raise Unsupported("*args to a callback")
+                        self.assumptions_used.add("callable parameter %s is external code described by its stub: it touches only the locations in its modifies and raises only what the stub declares" % key)
+                        loc = dict(tenv.old.locals)
+                        loc.update({"a%d" % i: a for i, a in enumerate(args)})
+                        loc.update(kwargs)
+                        env = Env(loc, tenv.module)
+                        return self.apply_contract(c, env, key, None, node, ret_ty=self.types.parse_str(c.returns) if c.returns else TNone)
         return self.opaque_call(callee, args, node, getattr(self, "cur_env", None))  # dictiter.py (Unsupported without an opaque-call policy)
 
     def apply_ufunc(self, name, args):
@@ -939,6 +959,40 @@ class CallMixin:
             return V(v.ty, v.t)
         raise Unsupported("list() of %s" % v.ty)
 
+    def bi_dict(self, node, env):
+        """C17: dict((e1, e2) for (a, b) in NAME.items()) where NAME is a module-level constant whose value is a dict
+        LITERAL (e.g. packet.PACKET_LONG_TYPE_DECODE_VERSION_1, the inversion of the ENCODE table): the generator is
+        unrolled over the literal's entries in source order (later entries overwrite earlier ones, as dict() does).
+        Every other form of dict(...) stays Unsupported."""
+        if len(node.args) == 1 and not node.keywords and isinstance(node.args[0], ast.GeneratorExp):
+            g = node.args[0]
+            if len(g.generators) == 1 and not g.generators[0].ifs and isinstance(g.elt, ast.Tuple) and len(g.elt.elts) == 2:
+                gen = g.generators[0]
+                it = gen.iter
+                if (isinstance(it, ast.Call) and isinstance(it.func, ast.Attribute) and it.func.attr == "items" and not it.args
+                        and isinstance(it.func.value, ast.Name) and env.module is not None and it.func.value.id not in env.locals
+                        and isinstance(env.module.consts.get(it.func.value.id), ast.Dict)
+                        and isinstance(gen.target, ast.Tuple) and len(gen.target.elts) == 2 and all(isinstance(t, ast.Name) for t in gen.target.elts)):
+                    lit = env.module.consts[it.func.value.id]
+                    if lit.keys and all(k is not None for k in lit.keys):
+                        pairs = []
+                        for kn, vn in zip(lit.keys, lit.values):
+                            loc = dict(env.locals)
+                            loc[gen.target.elts[0].id] = self.evalv(kn, env)
+                            loc[gen.target.elts[1].id] = self.evalv(vn, env)
+                            e2 = env.child(loc)
+                            pairs.append((self.evalv(g.elt.elts[0], e2), self.evalv(g.elt.elts[1], e2)))
+                        k0, v0 = pairs[0]
+                        if all(v.ty == v0.ty for _k, v in pairs) and all(k.ty == k0.ty for k, _v in pairs):
+                            ty = TDict(k0.ty if not isinstance(k0.ty, TEnum) else TInt, v0.ty)
+                            d = sym.dict_empty(ty)
+                            dom, val = sym.dict_dom(d), sym.dict_val(d)
+                            for k, v in pairs:
+                                dom = z3.Store(dom, sym.coerce(k, ty.k).t, True)
+                                val = z3.Store(val, sym.coerce(k, ty.k).t, sym.coerce(v, ty.v).t)
+                            return sym.dict_mk(ty, dom, val)
+        raise Unsupported("dict(...) call")
+
     def bi_set(self, node, env):
         if not node.args:
             return EmptyLiteral("set")
@@ -1115,7 +1169,7 @@ class CallMixin:
             k = z3.FreshConst(z3.IntSort(), "k")
             lp = sym.bytes_len(p)
             return sym.mk_bool(z3.And(sym.bytes_len(recv) >= lp, z3.ForAll([k], z3.Implies(z3.And(0 <= k, k < lp), z3.Select(sym.bytes_data(recv), k) == z3.Select(sym.bytes_data(p), k)))))
-        key = "%s.%s" % ({TBytes: "bytes", TStr: "str"}.get(ty, "list" if isinstance(ty, TList) else "dict"), name)
+        key = "%s.%s" % ({TBytes: "bytes", TStr: "str", TInt: "int"}.get(ty, "list" if isinstance(ty, TList) else "dict"), name)
         c = self.registry.contracts.get(key)
         if c is not None:
             return self.apply_stub(c, key, [recv] + list(args), kwargs, node)
